@@ -972,6 +972,12 @@ func (u *Unit) loadGlobal(st *State, g *ssa.Global) Term {
 			}
 		}
 		u.P.sentinelDistinct(u, g, c)
+		if _, isMap := el.Underlying().(*types.Map); isMap && u.P.readOnlyMapGlobal(g) {
+			if u.roMaps == nil {
+				u.roMaps = map[string]bool{}
+			}
+			u.roMaps[c.A] = true
+		}
 		return c
 	}
 	return u.load(st, u.globalAddr(g), el)
@@ -1222,4 +1228,71 @@ func indexRoot(v ssa.Value) ssa.Value {
 			return nil
 		}
 	}
+}
+
+// readOnlyMapGlobal: an unexported package-level map of the module that is never
+// reassigned and whose every use is a lookup, a range or len — nothing inside
+// or outside the module can change its content after package initialisation.
+func (p *Prog) readOnlyMapGlobal(g *ssa.Global) bool {
+	if g.Pkg == nil || !strings.HasPrefix(g.Pkg.Pkg.Path(), modulePath) || g.Object() == nil || g.Object().Exported() {
+		return false
+	}
+	if !p.immutableGlobal(g) {
+		return false
+	}
+	ok := true
+	var checkUses func(v ssa.Value)
+	checkUses = func(v ssa.Value) {
+		if v.Referrers() == nil {
+			ok = false
+			return
+		}
+		for _, r := range *v.Referrers() {
+			switch x := r.(type) {
+			case *ssa.DebugRef:
+			case *ssa.Lookup:
+				if x.X != v {
+					ok = false
+				}
+			case *ssa.Range:
+			case *ssa.Call:
+				if b, isB := x.Call.Value.(*ssa.Builtin); !isB || b.Name() != "len" {
+					ok = false
+				}
+			default:
+				ok = false
+			}
+		}
+	}
+	for _, f := range p.Funcs {
+		if f.Name() == "init" || strings.HasPrefix(f.Name(), "init#") {
+			continue
+		}
+		var visit func(fn *ssa.Function)
+		seen := map[*ssa.Function]bool{}
+		visit = func(fn *ssa.Function) {
+			if seen[fn] {
+				return
+			}
+			seen[fn] = true
+			for _, b := range fn.Blocks {
+				for _, in := range b.Instrs {
+					if un, isUn := in.(*ssa.UnOp); isUn && un.Op == token.MUL && un.X == ssa.Value(g) {
+						checkUses(un)
+					} else {
+						for _, op := range in.Operands(nil) {
+							if op != nil && *op == ssa.Value(g) {
+								ok = false // address of the variable used otherwise
+							}
+						}
+					}
+				}
+			}
+			for _, af := range fn.AnonFuncs {
+				visit(af)
+			}
+		}
+		visit(f)
+	}
+	return ok
 }
